@@ -49,6 +49,7 @@ type Transport struct {
 	// HoldWrites keeps asynchronous writes pending (transport not writable) until ReleaseWrites.
 	HoldWrites bool
 	heldWrites []func()
+	heldCbs    []sonic.AsyncCallback // callbacks of heldWrites, same order (CancelWrites completes these)
 
 	Closed      bool
 	CancelCalls int
@@ -249,6 +250,7 @@ func (t *Transport) asyncWrite(b []byte, all bool, cb sonic.AsyncCallback) {
 	}
 	if t.HoldWrites {
 		t.heldWrites = append(t.heldWrites, run)
+		t.heldCbs = append(t.heldCbs, cb)
 		return
 	}
 	t.complete(t.DeferWrites, run)
@@ -258,7 +260,7 @@ func (t *Transport) asyncWrite(b []byte, all bool, cb sonic.AsyncCallback) {
 func (t *Transport) ReleaseWrites() {
 	t.HoldWrites = false
 	held := t.heldWrites
-	t.heldWrites = nil
+	t.heldWrites, t.heldCbs = nil, nil
 	for _, fn := range held {
 		t.complete(t.DeferWrites, fn)
 	}
@@ -272,11 +274,24 @@ func (t *Transport) ReleaseOneWrite() bool {
 	}
 	fn := t.heldWrites[0]
 	t.heldWrites = t.heldWrites[1:]
+	t.heldCbs = t.heldCbs[1:]
 	t.complete(t.DeferWrites, fn)
 	return true
 }
 
 func (t *Transport) HeldWrites() int { return len(t.heldWrites) }
+
+// CancelWrites completes every held asynchronous write with ErrCancelled and no bytes accepted - what Cancel() on a
+// real descriptor does to a write parked on a full send buffer.
+func (t *Transport) CancelWrites() int {
+	cbs := t.heldCbs
+	t.heldWrites, t.heldCbs = nil, nil
+	for _, cb := range cbs {
+		cb := cb
+		t.complete(t.DeferWrites, func() { cb(sonicerrors.ErrCancelled, 0) })
+	}
+	return len(cbs)
+}
 
 func (t *Transport) AsyncWrite(b []byte, cb sonic.AsyncCallback)    { t.asyncWrite(b, false, cb) }
 func (t *Transport) AsyncWriteAll(b []byte, cb sonic.AsyncCallback) { t.asyncWrite(b, true, cb) }
